@@ -81,6 +81,10 @@ func StreamBatch(stream <-chan *gdbi.GraphElement, batchSize int, graph string, 
 				edge.ID = UUID()
 			}
 			err := edge.Validate()
+			if err == nil && (edge.From == "" || edge.To == "") {
+				// gdbi.Edge shares the vertex validation, which knows nothing of endpoints
+				err = fmt.Errorf("'from' and 'to' cannot be blank")
+			}
 			if err != nil {
 				bulkErr = multierror.Append(
 					bulkErr,
